@@ -530,7 +530,6 @@ func (pool *hostConnPool) fillingStopped(err error) {
 	pool.filling = false
 	count := len(pool.conns)
 	host := pool.host
-	port := pool.port
 	pool.mu.Unlock()
 
 	// if we errored and the size is now zero, make sure the host is marked as down
@@ -540,7 +539,9 @@ func (pool *hostConnPool) fillingStopped(err error) {
 	}
 	if err != nil && count == 0 {
 		if pool.session.cfg.ConvictionPolicy.AddFailure(err, host) {
-			pool.session.handleNodeDown(host.ConnectAddress(), port)
+			// the pool knows its host: looking it up by the address it connects to
+			// misses hosts whose node-to-node address differs from that address
+			pool.session.handleHostDown(host)
 		}
 	}
 }
